@@ -60,9 +60,27 @@ CLAIMS = {
             "on the sorted list, flags re-derived are set - C02_combo_chain_of_chronological_input -, SamplePoint::apply "
             "touches only what carry erases; node / own-sample image invariants C02_decoded_slider_nodes_image); "
             "slider velocities of the second decode equal (C02_round_trip_velocities); non-vacuity on a decoded map with "
-            "all four object kinds (C02_round_trip_example). NOT mechanised: a slider combo offset without the new-combo "
-            "bit, the time condition between the proved classes (exact difference, incl. Sterbenz start/2 <= end <= "
-            "2*start) and D33 "
+            "all four object kinds (C02_round_trip_example). WITH ONLY RECORDED CLASSES AS OBJECT HYPOTHESES: "
+            "C02_round_trip_decoded_map_classes / C02_round_trip_chronological_classes take the boolean "
+            "objects_in_classes lm m = false (no object in D30, D26, D33 - spinner / hold -, D13, D17, consecutive "
+            "Catmull, D21, D22 - slider) in place of the per-object Prop obj_classes, which is derived from it for the "
+            "objects of a decoded map (C02_decoded_object_outside_classes): D33 is the decidable class d33_object on the "
+            "STORED start and duration, the exact complement of the time condition "
+            "(C02_d33_class_is_the_time_condition; inhabited by a decoded map: C02_d33_decoded_witness); the curve of "
+            "every decoded slider is computable and a decoded slider carries a combo offset only next to the new-combo "
+            "flag (C02_decoded_slider_invariants), so the combo offset is preserved unconditionally "
+            "(final_rel_classes) - an offset without the bit is outside the decoder's image, not a finding; the "
+            "conclusion includes the velocities. Remaining hypotheses of these two: Display hypotheses, no line feed "
+            "inside a line, chronological hit-object lines, encoder and second decode return. The stored duration of "
+            "every decoded spinner / hold has the decoder's form max(0, fl(e - start)) resp. fl(max(start, e) - start) "
+            "for an end e within the parse limits (C02_decoded_durations_have_decoder_form - line parser, stable sort, "
+            "break post-processing, per-object loop; generic skeleton Proofs/Enc4Inv.v), so the C02_times_ok_* theorems "
+            "apply to decoded objects: an object in D33 had an end whose difference to the start is not a binary64 "
+            "number (C02_decoded_d33_inexact); a decoded object whose stored start + duration is a binary64 number "
+            "(whole milliseconds, common binary grids) is never in D33 (C02_decoded_exact_sum_not_d33, "
+            "C02_decoded_grid_not_d33, C02_whole_milliseconds_not_d33). NOT mechanised: a closed arithmetic "
+            "description of D33 (which pairs with a rounded difference lose the duration) - not needed by the theorems, "
+            "which use the decidable class itself; encoder totality on decoded maps "
             "- covered by the `enc` correspondence (decoder, curve, slider-event and encoder models composed, rendered with Rust's Display, "
             "compared with encode_to_string byte for byte) and by the oracle. D2 and D16 were found by this package's "
             "checks and repaired (4262585, d78b06a). Oracle: field-by-field comparison of decode(x) and "
